@@ -4,7 +4,7 @@ From TS Require Import Model.Str Model.Outcome Model.Unicode Model.Types Model.P
                        Model.Lang.TypeScript Model.Lang.Kotlin Model.Lang.Swift Model.Lang.Scala Model.Lang.Go Model.Lang.Python.
 From TS Require Import Spec.C10Spec.
 From TS Require Proofs.C10Lex Proofs.C10_TS Proofs.C10_TSFile Proofs.C10_KT Proofs.C10_SC Proofs.C10_GO Proofs.C10_GOFile
-                Proofs.C10_SW Proofs.C10_PY Proofs.C10_KW Proofs.C10.
+                Proofs.C10_SW Proofs.C10_SWFile Proofs.C10_PY Proofs.C10_PYFile Proofs.C10_KW Proofs.C10.
 From TS Require Props.C10.
 
 Goal forall (cfg : c10_lexcfg) (t : str), c10_balanced cfg t = true ->
@@ -40,6 +40,16 @@ Goal forall (uc : unicode) (cfg : go_config) (pd : parsed) (text : str),
     go_generate uc cfg pd = Ok text -> good_C10_lex CGO text = true.
 Proof. exact Props.C10.C10_lex_go_partial. Qed.
 Print Assumptions Props.C10.C10_lex_go_partial.
+Goal forall (uc : unicode) (cfg : sw_config) (pd : parsed) (text : str),
+    Proofs.C10_SWFile.c10_sw_cfg_ok cfg = true -> dom_C10 CSW pd = true ->
+    sw_generate uc cfg pd = Ok text -> good_C10_lex CSW text = true.
+Proof. exact Props.C10.C10_lex_swift. Qed.
+Print Assumptions Props.C10.C10_lex_swift.
+Goal forall (uc : unicode) (cfg : py_config) (pd : parsed) (text : str),
+    unicode_ok uc -> Proofs.C10_PYFile.c10_py_cfg_ok cfg = true -> dom_C10 CPY pd = true ->
+    py_generate uc cfg pd = Ok text -> good_C10_lex CPY text = true.
+Proof. exact Props.C10.C10_lex_python. Qed.
+Print Assumptions Props.C10.C10_lex_python.
 Goal forall d : ts_decl, Proofs.C10_TS.c10_ts_decl_ok d = true ->
   forall st, c10_lex_run c10_lex_ts (C10LCode, st) (ts_render_decl d) = (C10LCode, st).
 Proof. exact Props.C10.C10_ts_layout_balanced. Qed.
@@ -58,12 +68,12 @@ Proof. exact Props.C10.C10_go_layout_balanced. Qed.
 Print Assumptions Props.C10.C10_go_layout_balanced.
 Goal forall d : sw_decl, Proofs.C10_SW.c10_sw_decl_ok d = true ->
   forall st, c10_lex_run c10_lex_sw (C10LCode, st) (sw_render_decl d) = (C10LCode, st).
-Proof. exact Props.C10.C10_lex_swift_layout_partial. Qed.
-Print Assumptions Props.C10.C10_lex_swift_layout_partial.
+Proof. exact Props.C10.C10_swift_layout_balanced. Qed.
+Print Assumptions Props.C10.C10_swift_layout_balanced.
 Goal forall d : py_decl, Proofs.C10_PY.c10_py_decl_ok d = true ->
   forall st, c10_lex_run c10_lex_py (C10LCode, st) (py_render_decl d) = (C10LCode, st).
-Proof. exact Props.C10.C10_lex_python_layout_partial. Qed.
-Print Assumptions Props.C10.C10_lex_python_layout_partial.
+Proof. exact Props.C10.C10_python_layout_balanced. Qed.
+Print Assumptions Props.C10.C10_python_layout_balanced.
 Goal forall (uc : unicode) (cfg : sw_config) (pd : parsed) (fd : file_decls),
     sw_file_decls uc cfg pd = Ok fd -> good_C10_kw CSW (fd_decls fd) = true.
 Proof. exact Props.C10.C10_kw_swift. Qed.
